@@ -30,7 +30,7 @@ func EnumSmall(maxN int, visit func(*Case)) {
 			faults[f] = true
 		}
 		var fl []string
-		for _, f := range []string{"none", "cberr", "cancel-before", "cancel-at", "store-read", "store-read-deadline", "store-row", "store-row-deadline", "cancel-in-read", "cancel-in-read-err", "sql-next", "sql-query", "badrow", "http-err", "http-500", "http-deadline"} {
+		for _, f := range []string{"none", "cberr", "cancel-before", "cancel-at", "store-read", "store-read-deadline", "store-read-eof", "store-row", "store-row-deadline", "store-row-eof", "cancel-in-read", "cancel-in-read-err", "sql-next", "sql-query", "badrow", "http-err", "http-500", "http-deadline", "http-eof"} {
 			if faults[f] {
 				fl = append(fl, f)
 			}
